@@ -7,8 +7,11 @@ from __future__ import annotations
 import itertools
 import re
 
-from ..core import Reporter
+from ..core import Reporter, Workdir
 from .. import chrun
+from ..cells import Cell, run_cells
+from ..spec import Ty, U, S, BV, BIT
+from .. import spec as SP
 from . import c13_epy as H
 
 PRELUDE = "from vfw.props import c13_epy as H\n"
@@ -63,14 +66,106 @@ def functions(tier):
     """
     return H.views_ok({W}, {k}, val, {wv}, wsel, hi, lo, newbits, q)
 ''', lambda a, k=k, wv=wv, W=W: (H.views_ok(W, k, a[0], wv, a[1], a[2], a[3], a[4], a[5]), f"views kind {k} write-view {wv} read-view {a[1]} slice [{a[2]}:{a[3]}] value {a[0]} new {a[4]} qualifier {a[5]}")))
+    for k, path in itertools.product(range(3), range(8)):
+        n = f"c13_valueview_{k}_{path}"
+        fs.append((n, f'''def {n}(val: int, hi: int, lo: int, newbits: int) -> bool:
+    """
+    pre: 0 <= val <= {top} and 0 <= lo <= hi <= {W - 1} and 0 <= newbits <= {top}
+    post: _
+    """
+    return H.value_views_ok({W}, {k}, val, hi, lo, newbits, {path})
+''', lambda a, k=k, path=path, W=W: (H.value_views_ok(W, k, a[0], a[1], a[2], a[3], path), f"value views kind {k} path {path} slice [{a[1]}:{a[2]}] value {a[0]} new {a[3]}")))
     return fs
+
+
+# ---------------------------------------------------------------- emitted text: views of views name the same bits
+RW = 10
+CHAINS = [
+    [(9, 2)], [(7, 0)], [(8, 3)],
+    [(9, 2), (6, 1)], [(9, 2), (7, 0)], [(8, 1), (4, 2)], [(7, 0), (7, 4)],
+    [(9, 2), (6, 1), (4, 1)], [(9, 1), (8, 2), (5, 3)], [(8, 0), (8, 1), (7, 2)], [(9, 2), (7, 1), (6, 1)],
+]
+VIEWS = {"bitvector": "BV", "unsigned": "U", "signed": "S"}
+
+
+def _abs(chain):
+    lo, w = 0, RW
+    for hi_r, lo_r in chain:
+        assert hi_r < w
+        lo, w = lo + lo_r, hi_r - lo_r + 1
+    return lo, w
+
+
+def _chain_src(chain, mid_view=None):
+    """slices; an optional view is inserted after the first slice (views of views of views)"""
+    parts = [f"[{h}:{l}]" for h, l in chain]
+    if mid_view is not None:
+        parts.insert(1, f".{mid_view}")
+    return "".join(parts)
+
+
+def _set(P, bits, lo, w, val, W):
+    mask = ((1 << w) - 1) << lo
+    keep = ((1 << W) - 1) & ~mask
+    return P.bor(P.band(bits, P.const(keep)), P.shl(P.band(val, P.const((1 << w) - 1)), lo))
+
+
+def view_cells():
+    rd, wr = [], []
+    for rk in ("BV", "U", "S"):
+        root = Ty(rk, RW)
+        for ci, chain in enumerate(CHAINS):
+            lo, w = _abs(chain)
+            for vi, (vname, vk) in enumerate(VIEWS.items()):
+                mid = [None, "bitvector", "unsigned", "signed"][(ci + vi) % 4] if len(chain) > 1 else None
+                src = _chain_src(chain, mid)
+                vt = Ty(vk, w)
+                key = f"{rk}{src}.{vname}"
+                rd.append(Cell(f"view-read|{key}", [("a", root)], vt, f"{{o}} <<= {{a}}{src}.{vname}",
+                               lambda P, a, root=root, lo=lo, w=w, vt=vt: SP._from_bits(P, P.wrap(P.shr(SP._bits(P, a, root), lo), w, False), vt)))
+                wr.append(Cell(f"view-write|{key}", [("z", root), ("v", vt)], root, f"{{o}} <<= {{z}}\n{{o}}{src}.{vname} <<= {{v}}",
+                               lambda P, z, v, root=root, lo=lo, w=w, vt=vt: SP._from_bits(P, _set(P, SP._bits(P, z, root), lo, w, SP._bits(P, v, vt), RW), root)))
+            src = _chain_src(chain)
+            # element of a view, iteration over a view (reads and writes)
+            for i in sorted({0, w - 1, w // 2}):
+                rd.append(Cell(f"view-index|{rk}{src}[{i}]", [("a", root)], BIT, f"{{o}} <<= {{a}}{src}[{i}]",
+                               lambda P, a, root=root, p=lo + i: P.wrap(P.shr(SP._bits(P, a, root), p), 1, False)))
+            rd.append(Cell(f"view-iterate|{rk}{src}", [("a", root)], BV(w), f"for c13i, c13b in enumerate({{a}}{src}):\n    {{o}}[c13i] <<= c13b",
+                           lambda P, a, root=root, lo=lo, w=w: P.wrap(P.shr(SP._bits(P, a, root), lo), w, False)))
+            wr.append(Cell(f"view-iterate-write|{rk}{src}", [("z", root), ("v", BV(w))], root, f"{{o}} <<= {{z}}\nfor c13i, c13b in enumerate({{o}}{src}):\n    c13b <<= {{v}}[c13i]",
+                           lambda P, z, v, root=root, lo=lo, w=w: SP._from_bits(P, _set(P, SP._bits(P, z, root), lo, w, v, RW), root)))
+    return rd, wr
+
+
+def run_view_cells(rep, counts):
+    wd = Workdir()
+    try:
+        rd, wr = view_cells()
+        for ctx, cs in (("concurrent", rd), ("clocked", wr)):
+            for k in range(0, len(cs), 30):
+                for res in run_cells(rep, wd, cs[k:k + 30], ctx):
+                    counts[res.status] = counts.get(res.status, 0) + 1
+                    key = res.cell.key
+                    if res.status == "ok":
+                        rep.stats.nontrivial.add(key)
+                    elif res.status == "mismatch":
+                        rep.violation(f"{key.split('|')[0]}|depth{key.count('[')}|{key.split('|')[1][:2].rstrip('[')}", f"{key}: the emitted text does not name the bits of the view: {res.detail['inputs_math']} -> {res.detail['got_bits']}, expected {res.detail['want_bits']}", res.detail)
+                    elif res.status == "illegal":
+                        rep.violation(f"illegal|{key}", f"{key}: emitted VHDL illegal: {res.detail['msg']}", res.detail)
+                    elif res.status == "rejected":
+                        counts["rejected-keys"] = counts.get("rejected-keys", []) + [key]
+                    elif res.status != "vacuous":
+                        rep.inconclusive_query(f"{key}: {res.detail}")
+        return len(rd) + len(wr)
+    finally:
+        wd.close()
 
 
 def run(tier: str) -> int:
     rep = Reporter("C13", tier, "other")
     fs = functions(tier)
     replay = {f[0]: f[2] for f in fs}
-    res, cpu = chrun.run_functions([(f[0], f[1]) for f in fs], PRELUDE, per_cond=120 if tier == "quick" else 600, chunk=2)
+    res, cpu = chrun.run_functions([(f[0], f[1]) for f in fs], PRELUDE, per_cond=600 if tier == "quick" else 1800, chunk=2)
     confirmed = 0
     for fn, (status, msg) in sorted(res.items()):
         rep.stats.queries += 1
@@ -96,12 +191,19 @@ def run(tier: str) -> int:
         else:
             rep.stats.unknown += 1
             rep.inconclusive_query(f"{fn}: {msg[:150]}")
+    vcounts = {}
+    ncells = run_view_cells(rep, vcounts)
+    rej = vcounts.pop("rejected-keys", [])
+    if len(rej) > ncells // 4:
+        rep.inconclusive_query(f"{len(rej)} of {ncells} view cells rejected by the compiler, e.g. {rej[:3]}")
     rep.stats.units |= {"cohdl._core._bit_vector._BitVector.__getitem__", "cohdl._core._type_qualifier._TypeQualifier.__getitem__", "cohdl._core._array._MetaArray.__getitem__",
                         "TypeQualifier.__getitem__ / unsigned / signed / bitvector views", "cohdl.utility.span"}
     rep.assumptions += ["widths 1..8 (vectors), 1..6 (qualified), arrays up to 4x4; both orders of first use with caches reset to the import-time snapshot on every path",
                         "views: object width %d, every contents / written slice / written bits / read view / qualifier in {Signal, Variable}" % (2 if tier == "quick" else 3)]
+    rep.assumptions += ["emitted text: %d view cells (chains of up to 3 slices with .bitvector/.unsigned/.signed views in between, element access, iteration; reads and writes) on a 10-bit root of each kind, proved for all contents by z3" % ncells]
     return rep.finish({
-        "explanation": f"{len(fs)} CrossHair conditions over the type-construction and view machinery, {confirmed} 'Confirmed over all paths' (cpu {round(cpu)} s)",
+        "view_cells": ncells, "view_cell_results": vcounts,
+        "explanation": f"{len(fs)} CrossHair conditions over the type-construction and view machinery, {confirmed} 'Confirmed over all paths' (cpu {round(cpu)} s); {ncells} view cells through the whole compiler",
         "evaluations": len(fs), "distinct_nontrivial": len(rep.stats.nontrivial), "conditions": len(fs), "confirmed": confirmed,
         "samples": [{"condition": fs[0][0], "source": fs[0][1]}, {"condition": fs[-1][0], "source": fs[-1][1]}],
     })
